@@ -192,6 +192,33 @@ func init() {
 				return tp != nil && f != tp && staticCallsTo(tp, false, f) && invokesMethod(f, false, "ProxyRequestToEndpoints")
 			})
 		},
+		// ---- proxy engines / retry core ----
+		"internal/adapter/proxy/sherpa|(*Service).proxyToSingleEndpoint": func(c *Ctx) *ssa.Function { return attemptFuncIn(c, "internal/adapter/proxy/sherpa") },
+		"internal/adapter/proxy/olla|(*Service).proxyToSingleEndpoint":   func(c *Ctx) *ssa.Function { return attemptFuncIn(c, "internal/adapter/proxy/olla") },
+		pkgCore + "|(*RetryHandler).preserveRequestBody": func(c *Ctx) *ssa.Function {
+			return pick(c, pkgCore, "RetryHandler", func(f *ssa.Function) bool { return sigIs(f, []string{"*Request"}, []string{"[]byte", "error"}) })
+		},
+		pkgCore + "|(*RetryHandler).checkContextCancellation": func(c *Ctx) *ssa.Function {
+			return pick(c, pkgCore, "RetryHandler", func(f *ssa.Function) bool { return sigIs(f, []string{"Context"}, []string{"error"}) })
+		},
+		"internal/adapter/proxy/olla|(*Service).streamResponse": func(c *Ctx) *ssa.Function {
+			af := attemptFuncIn(c, "internal/adapter/proxy/olla")
+			return pick(c, "internal/adapter/proxy/olla", "Service", func(f *ssa.Function) bool {
+				if af == nil || f == af || !staticCallsTo(af, false, f) {
+					return false
+				}
+				hasResp, hasBuf := false, false
+				for _, p := range f.Params {
+					if isNamed(p.Type(), "net/http", "Response") {
+						hasResp = true
+					}
+					if p.Type().String() == "[]byte" {
+						hasBuf = true
+					}
+				}
+				return hasResp && hasBuf
+			})
+		},
 		// ---- Anthropic translator ----
 		tr("convertToolChoice"): func(c *Ctx) *ssa.Function {
 			return pick(c, A, "Translator", func(f *ssa.Function) bool { return sigIs(f, []string{"any"}, []string{"any", "error"}) })
@@ -339,4 +366,14 @@ func isFinishReasonMapper(f *ssa.Function) bool {
 		}
 		return mentionsConst(f, "tool_calls") && mentionsConst(f, "tool_use")
 	})
+}
+
+func attemptFuncIn(c *Ctx, pkg string) *ssa.Function {
+	var out []*ssa.Function
+	for _, f := range attemptFuncs(c) {
+		if strings.HasSuffix(fnPkgPath(f), pkg) {
+			out = append(out, f)
+		}
+	}
+	return only(out)
 }
